@@ -140,8 +140,55 @@ def get_class(name: str) -> Any:
     return getattr(mod, name)
 
 
+class SelfDeadlock(Exception):
+    pass
+
+
+class SeqLock:
+    """Stand-in for a lock in the *sequential* search: re-acquiring a non-reentrant lock
+    would hang the real thing forever; here it is an observable failure."""
+
+    def __init__(self, reentrant: bool):
+        self.depth = 0
+        self.reentrant = reentrant
+
+    def acquire(self, blocking: bool = True, timeout: float = -1) -> bool:
+        if self.depth and not self.reentrant:
+            self.depth = 0  # let later operations of the history proceed
+            raise SelfDeadlock("non-reentrant lock acquired twice by the same thread")
+        self.depth += 1
+        return True
+
+    def release(self) -> None:
+        if self.depth <= 0:
+            raise RuntimeError("release unlocked lock")
+        self.depth -= 1
+
+    __enter__ = acquire
+
+    def __exit__(self, *a: Any) -> None:
+        if self.depth > 0:
+            self.depth -= 1
+
+    def locked(self) -> bool:
+        return self.depth > 0
+
+
+def swap_locks(c: Any, factory: Any) -> None:
+    import threading
+
+    real_lock_type = type(threading.Lock())
+    real_rlock_type = type(threading.RLock())
+    for name, val in list(vars(c).items()):
+        if isinstance(val, real_lock_type):
+            setattr(c, name, factory(False))
+        elif isinstance(val, real_rlock_type):
+            setattr(c, name, factory(True))
+
+
 def build(cls_name: str, cap: int, hist: list[tuple[Any, ...]]) -> Any:
     c = get_class(cls_name)(cap)
+    swap_locks(c, SeqLock)
     for op in hist:
         real_apply(c, op)
     return c
@@ -303,8 +350,8 @@ def thread_programs(tier: str) -> list[dict[str, Any]]:
     """The driver configurations (each explored exhaustively up to its bound)."""
     progs: list[dict[str, Any]] = []
     a1: list[tuple[Any, ...]] = [
-        ("set", "a", 1), ("set", "z", 1), ("getitem", "a"), ("get", "a"), ("del", "a"), ("in", "a"),
-        ("keys",), ("values",), ("items",), ("iter",), ("len",),
+        ("set", "a", 1), ("set", "z", 1), ("set", "y", 1), ("getitem", "a"), ("get", "a"), ("del", "a"),
+        ("in", "a"), ("keys",), ("values",), ("items",), ("iter",), ("len",),
     ]
     inits: list[tuple[int, list[tuple[str, int]]]] = [
         (1, []), (1, [("a", 0)]), (2, [("a", 0)]), (2, [("a", 0), ("b", 0)]), (2, [("b", 0), ("a", 0)]),
@@ -315,7 +362,8 @@ def thread_programs(tier: str) -> list[dict[str, Any]]:
         for i, j in pairs:
             progs.append({"cap": cap, "init": init, "threads": [[a1[i]], [a1[j]]], "bound": 2})
     # 2 threads x 2 ops and 3 threads x 1 op over a reduced alphabet
-    a2: list[tuple[Any, ...]] = [("set", "a", 1), ("set", "z", 1), ("getitem", "a"), ("del", "a"), ("items",)]
+    a2: list[tuple[Any, ...]] = [("set", "a", 1), ("set", "z", 1), ("set", "y", 1), ("getitem", "a"), ("del", "a"),
+                                 ("items",)]
     inits2 = [(1, [("a", 0)]), (2, [("b", 0), ("a", 0)])]
     two = list(itertools.product(a2, repeat=2))
     if tier == "thorough":
@@ -362,14 +410,9 @@ def make_cache(cap: int, init: list[tuple[str, int]], exec_ref: Any) -> Any:
     from liquid.utils import lru_cache as mod
     from mc import sched_threads as S
 
-    real_lock_type = type(threading.Lock())
-    real_rlock_type = type(threading.RLock())
     c = mod.ThreadSafeLRUCache(cap)
-    for name, val in list(vars(c).items()):
-        if isinstance(val, real_lock_type):
-            setattr(c, name, S.SchedLock(exec_ref, reentrant=False))
-        elif isinstance(val, real_rlock_type):
-            setattr(c, name, S.SchedLock(exec_ref, reentrant=True))
+    swap_locks(c, lambda re: S.SchedLock(exec_ref, reentrant=re))
+    _ = threading
     for k, v in init:
         c[k] = v
     return c
